@@ -63,6 +63,7 @@ func (m *Machine) fresh(e *Explorer) *interpreter {
 	e.pools = map[*value]*pool{}
 	e.builders = map[*value]string{}
 	e.env = map[string]value{}
+	e.onces = map[*value]bool{}
 	e.interp = i
 	return i
 }
